@@ -1,10 +1,12 @@
 #!/bin/bash
 # usage: tools/try_mutant.sh <prop> <patch.diff> [extra check args]  -- applies patch to /repo, runs check, reverts
+# evidence/ and replays/ produced by the mutant run are moved aside (evidence must come from the unchanged tree)
 prop=$1; patch=$2; shift 2
 cd /verif
+cp evidence/$prop.json /tmp/.evidence_$prop.bak 2>/dev/null
 git -C /repo apply "$patch" || { echo "patch does not apply"; exit 9; }
-if grep -q "specpart" "$patch"; then :; fi
 ./check $prop "$@" 2>&1 | tail -8
 rc=${PIPESTATUS[0]}
 git -C /repo checkout -- .
+cp /tmp/.evidence_$prop.bak evidence/$prop.json 2>/dev/null; rm -f /tmp/.evidence_$prop.bak
 echo "rc=$rc"
